@@ -97,6 +97,10 @@ def events(tier, depth_left, engine="pickle"):
     ev.append(["sample_np", 2, 7, None])
     ev.append(["sample_np", 1, 8, [3, 4]])
     ev.append(["sample_np", 2, 9, [5]])
+    # a generator listed before a plain list of choices, and one between two
+    # lists with a per-call list for the last (every value under its own name)
+    ev.append(["sample_mixed", 3, 11, False])
+    ev.append(["sample_mixed", 2, 12, True])
     # crop runs: draws, batchsize, reaped through the long-lived Crop object
     # (else a Crop rebuilt from disk), a constant given for this sow only
     # that the Runner also stores
@@ -325,6 +329,40 @@ class World:
                                 "choices allowed in this run (a in %r)"
                                 % (r, allowed_a)))
                 new_rows.append(self.expect_row(r["a"], r["b"]))
+            if len(got) != n:
+                vio.append(("run-length", "%d rows for n=%d" % (len(got), n)))
+        elif kind == "sample_mixed":
+            _, n, seed, three = ev
+            gen_a = Cycler(CH["a"])
+            dc = {"a": gen_a, "b": list(CH["b"])}
+            kw = {}
+            if three:
+                dc = {"b": list(CH["b"]), "a": gen_a, "c": [7, 8]}
+                kw["combos"] = {"c": [5]}
+            r = xyz.Runner(self.f, var_names="out", constants={"k": 0})
+            sm = xyz.Sampler(r, data_name=self.path, engine=self.cfg["engine"],
+                             default_combos=dc)
+            np.random.seed(seed)
+            try:
+                last = sm.sample_combos(n, verbosity=0, **kw)
+            except Exception as e:
+                return [("raised:" + type(e).__name__,
+                         "sample_combos (generator before a list) raised %r"
+                         % e)]
+            self.s = self.new_sampler()
+            got = cmp.df_rows(last)
+            new_rows = []
+            for j, r_ in enumerate(got):
+                want_a = CH["a"][j % len(CH["a"])]
+                if r_["a"] != want_a or r_["b"] not in CH["b"] or (
+                        three and r_.get("c") != 5):
+                    vio.append(("choice-outside", "draw %d is %r: the "
+                                "generator of a hands out %r, b is chosen "
+                                "from %r%s" % (j, r_, want_a, CH["b"],
+                                               ", c from [5]" if three
+                                               else "")))
+                new_rows.append(self.expect_row(
+                    r_["a"], r_["b"], **({"c": r_.get("c")} if three else {})))
             if len(got) != n:
                 vio.append(("run-length", "%d rows for n=%d" % (len(got), n)))
         elif kind == "crop":
